@@ -32,14 +32,17 @@ def main():
     checks = [prop]
     tier = "quick"
     skip_suite = False
+    tag = ""
     for i, a in enumerate(sys.argv):
+        if a == "--tag":
+            tag = sys.argv[i + 1]
         if a == "--checks":
             checks = sys.argv[i + 1].split(",")
         if a == "--tier":
             tier = sys.argv[i + 1]
         if a == "--skip-suite":
             skip_suite = True
-    sid = f"{prop}-{name}"
+    sid = f"{prop}-{tag}{name}"
     wt = f"/tmp/sv/{sid}"
     os.makedirs("/tmp/sv", exist_ok=True)
     sh(f"git -C /repo worktree remove --force {wt}")
